@@ -386,7 +386,12 @@ pub fn gen_doc(u: &mut Unstructured, cfg: &DocCfg) -> DocModel {
     let mut d = DocModel {
         overview: gen_block(u, cfg, 4),
         tags: Vec::new(),
-        tag_indent: [" ", "", "  ", "\t"][pick(u, 4)].to_owned(),
+        // (exotic: tag lines indented with white space that is not ASCII)
+        tag_indent: if cfg.exotic && chance(u, 50) {
+            ["\u{a0}", "\u{3000}", " \u{2003}", "\u{a0}\t"][pick(u, 4)].to_owned()
+        } else {
+            [" ", "", "  ", "\t"][pick(u, 4)].to_owned()
+        },
     };
     // an overview line must not start with '@' after its indentation
     for l in &mut d.overview {
